@@ -763,4 +763,4 @@ def _depth_container_job(cls: str, kind: str) -> Callable[[], Record]:
 
 for _c in ("DepthModuleList", "DepthSequential"):
     for _k in ("tagged", "untagged", "already_has_depth"):
-        register(Job(f"mod:{_c}[{_k}]", ["C08"], M + _c, {"kind": _k}, _depth_container_job(_c, _k)))
+        register(Job(f"mod:{_c}[{_k}]", ["C08", "C12"], M + _c, {"kind": _k}, _depth_container_job(_c, _k), shared=True))
